@@ -525,10 +525,12 @@ func macroElProcess(exp Exporter) {
 
 	switch scope.tag {
 	case "verse":
-		processParagraph(exp)
-		closeUnclosedScopes(exp, scopeInline)
+		if ctx.parScope {
+			processParagraph(exp)
+			closeUnclosedScopes(exp, scopeInline)
+			exp.EndStanza()
+		}
 		ctx.verseScope = false
-		exp.EndStanza()
 		exp.EndVerse()
 	case "desc":
 		endParagraph(exp, ParBreakItem)
